@@ -234,7 +234,15 @@ def run_history(case, res):
             kinds.append("batch%d" % n)
             nbatch += 1
             nrep += sum(1 for p in batch if p in seen) + (len(batch) - len(set(batch)))
-            v = f(batch)
+            form = rng.random()
+            if form < 0.15:
+                v = f([list(p) for p in batch])      # a batch does not have to be a list of tuples
+                kinds.append("batch_as_lists")
+            elif form < 0.3:
+                v = f(np.array(batch, dtype=float))
+                kinds.append("batch_as_array")
+            else:
+                v = f(batch)
             seen.update(batch)
             res.check("shape_batch", isinstance(v, np.ndarray) and v.shape == (n, ol), "C12_shape_batch",
                       "%s: f(batch of %d) has shape %s, expected (%d,%d)" % (name, n, getattr(v, "shape", None), n, ol), ctx)
